@@ -1,2 +1,3 @@
 import C2paModel.Model.C23
-def main : IO Unit := C2pa.runDriver C2pa.C23.handle
+import C2paModel.Gen.C23Sites
+def main : IO Unit := C2pa.runDriver (C2pa.C23.handleWith C2pa.C23.Gen.sites)
